@@ -169,7 +169,8 @@ def render(doc: Doc) -> str:
                 # an identifier lambda directly before a let: body goes on the next line
                 lines.append(pending_head.rstrip())
                 pending_head = ""
-            lines.append("let")
+            # an optional comment on the `let` line itself: ("let", entries, comment)
+            lines.append("let" + (f" # {w[2]}" if len(w) > 2 and w[2] else ""))
             for e in w[1]:
                 lines += render_entry(e, 2)
             lines.append("in")
@@ -414,7 +415,8 @@ class DocGen:
         # innermost wrapper is a call head, where a bare let is not valid Nix
         if nl and not (d.wrappers and d.wrappers[-1][0] == "call"):
             for _ in range(nl):
-                d.wrappers.append(("let", self.let_entries(r.choice([1, 2, 3]))))
+                note = self.comment() if (self.comments and r.random() < 0.08 * self.comment_rate) else None
+                d.wrappers.append(("let", self.let_entries(r.choice([1, 2, 3])), note))
         d.target = self.set_node(0, r.choice(range(1, self.max_entries + 1)))
         if d.wrappers and d.wrappers[-1][0] == "call" and r.random() < 0.2:
             d.target.rec = True
